@@ -244,6 +244,10 @@ def run_check(prop, tier, seed, nproc=None):
         print(f"KNOWN-FINDING: property={prop} {known_keys[key].get('what', key)}")
     rc = 0
     os.makedirs(REPLAY_DIR, exist_ok=True)
+    for name in os.listdir(REPLAY_DIR):
+        # replay files of earlier runs of this property are stale now
+        if name.startswith(prop + "-"):
+            os.unlink(os.path.join(REPLAY_DIR, name))
     seen = set()
     for v in new_violations:
         if v["key"] in seen:
